@@ -1661,6 +1661,64 @@ let drag_command o s =
        | n0 :: l -> n0 :: l)
     (if (&&) s.drag_has_dir (negb o.o_cmd_not_trz) then drag_dir_flag else [])
 
+(** val out_forward :
+    (n list -> bool) -> (n list -> 'a2) -> opts -> ('a1, 'a2) state -> obs
+    list -> n list -> ('a1, 'a2) state * obs list **)
+
+let out_forward zmodem_detect zm_init o s pre buf =
+  if s.interrupting
+  then (s, pre)
+  else let skip = s.skip_cmd in
+       let s0 = if skip then set_skip_cmd false s else s in
+       if (&&) skip
+            (match s0.cur_cmd with
+             | Some c ->
+               list_eqb c (trim_right skip_trim_cutset (trim_vt100 buf))
+             | None -> false)
+       then (s0, (app pre ((ToTerm skip_echo_repl) :: [])))
+       else if (&&) o.o_zmodem (zmodem_detect buf)
+            then (match s0.zmodem with
+                  | Some _ ->
+                    (s0, (app pre ((ToTerm buf) :: ((ToTerm buf) :: []))))
+                  | None ->
+                    ((set_zmodem (Some (zm_init buf)) s0),
+                      (app pre ((ToTerm buf) :: ((ToTerm
+                        hide_cursor_seq) :: [])))))
+            else (s0, (app pre ((ToTerm buf) :: [])))
+
+(** val out_detect :
+    ('a1 -> n list -> (n list * 'a2 option) * 'a1) -> ('a2 -> bool) -> (n
+    list -> bool) -> (n list -> 'a3) -> opts -> ('a1, 'a3) state -> obs list
+    -> n list -> ('a1, 'a3) state * obs list **)
+
+let out_detect detect trig_prompts zmodem_detect zm_init o s pre buf =
+  let (q, cl) = if o.o_osc52 then detect_osc52 s.osc buf else (s.osc, []) in
+  let s0 = set_osc q s in
+  let pre0 = app pre (map (fun x -> Clip x) cl) in
+  let (p, d') = detect s0.det buf in
+  let (buf', o0) = p in
+  (match o0 with
+   | Some t ->
+     ((set_handlers (app s0.handlers (HChoosing :: []))
+        (set_prompts (trig_prompts t) (set_det d' s0))),
+       (app pre0 ((ToTerm buf') :: [])))
+   | None -> out_forward zmodem_detect zm_init o (set_det d' s0) pre0 buf')
+
+(** val out_zmodem :
+    ('a2 -> n list -> bool * 'a2) -> opts -> ('a1, 'a2) state -> n list ->
+    (('a1, 'a2) state, ('a1, 'a2) state * obs list) sum **)
+
+let out_zmodem zm_handle o s buf =
+  if o.o_zmodem
+  then (match s.zmodem with
+        | Some z0 ->
+          let (h, z') = zm_handle z0 buf in
+          if h
+          then Inl (set_zmodem (Some z') s)
+          else Inr ((set_zmodem None s), ((ToTerm show_cursor_seq) :: []))
+        | None -> Inr (s, []))
+  else Inr (s, [])
+
 (** val out_step :
     ('a1 -> n list -> (n list * 'a2 option) * 'a1) -> ('a2 -> bool) -> (n
     list -> bool) -> (n list -> 'a3) -> ('a3 -> n list -> bool * 'a3) -> n
@@ -1671,93 +1729,11 @@ let out_step detect trig_prompts zmodem_detect zm_init zm_handle msg_on msg_off 
   if s.transfer
   then (s, [])
   else let (buf, s0) = trace_log msg_on msg_off o s buf0 in
-       let zres =
-         if o.o_zmodem
-         then (match s0.zmodem with
-               | Some z0 ->
-                 let (h, z') = zm_handle z0 buf in
-                 if h
-                 then Inl (set_zmodem (Some z') s0)
-                 else Inr ((set_zmodem None s0), ((ToTerm
-                        show_cursor_seq) :: []))
-               | None -> Inr (s0, []))
-         else Inr (s0, [])
-       in
-       (match zres with
+       (match out_zmodem zm_handle o s0 buf with
         | Inl s' -> (s', [])
         | Inr p ->
           let (s1, pre) = p in
-          if o.o_osc52
-          then let (q, cl) = detect_osc52 s1.osc buf in
-               let s2 = set_osc q s1 in
-               let clips = map (fun x -> Clip x) cl in
-               let pre0 = app pre clips in
-               let (p0, d') = detect s2.det buf in
-               let (buf1, trig) = p0 in
-               let s3 = set_det d' s2 in
-               (match trig with
-                | Some t ->
-                  ((set_handlers (app s3.handlers (HChoosing :: []))
-                     (set_prompts (trig_prompts t) s3)),
-                    (app pre0 ((ToTerm buf1) :: [])))
-                | None ->
-                  if s3.interrupting
-                  then (s3, pre0)
-                  else let skip = s3.skip_cmd in
-                       let s4 = if skip then set_skip_cmd false s3 else s3 in
-                       if (&&) skip
-                            (match s4.cur_cmd with
-                             | Some c ->
-                               list_eqb c
-                                 (trim_right skip_trim_cutset
-                                   (trim_vt100 buf1))
-                             | None -> false)
-                       then (s4, (app pre0 ((ToTerm skip_echo_repl) :: [])))
-                       else if (&&) o.o_zmodem (zmodem_detect buf1)
-                            then (match s4.zmodem with
-                                  | Some _ ->
-                                    (s4,
-                                      (app pre0 ((ToTerm buf1) :: ((ToTerm
-                                        buf1) :: []))))
-                                  | None ->
-                                    ((set_zmodem (Some (zm_init buf1)) s4),
-                                      (app pre0 ((ToTerm buf1) :: ((ToTerm
-                                        hide_cursor_seq) :: [])))))
-                            else (s4, (app pre0 ((ToTerm buf1) :: []))))
-          else let clips = [] in
-               let pre0 = app pre clips in
-               let (p0, d') = detect s1.det buf in
-               let (buf1, trig) = p0 in
-               let s2 = set_det d' s1 in
-               (match trig with
-                | Some t ->
-                  ((set_handlers (app s2.handlers (HChoosing :: []))
-                     (set_prompts (trig_prompts t) s2)),
-                    (app pre0 ((ToTerm buf1) :: [])))
-                | None ->
-                  if s2.interrupting
-                  then (s2, pre0)
-                  else let skip = s2.skip_cmd in
-                       let s3 = if skip then set_skip_cmd false s2 else s2 in
-                       if (&&) skip
-                            (match s3.cur_cmd with
-                             | Some c ->
-                               list_eqb c
-                                 (trim_right skip_trim_cutset
-                                   (trim_vt100 buf1))
-                             | None -> false)
-                       then (s3, (app pre0 ((ToTerm skip_echo_repl) :: [])))
-                       else if (&&) o.o_zmodem (zmodem_detect buf1)
-                            then (match s3.zmodem with
-                                  | Some _ ->
-                                    (s3,
-                                      (app pre0 ((ToTerm buf1) :: ((ToTerm
-                                        buf1) :: []))))
-                                  | None ->
-                                    ((set_zmodem (Some (zm_init buf1)) s3),
-                                      (app pre0 ((ToTerm buf1) :: ((ToTerm
-                                        hide_cursor_seq) :: [])))))
-                            else (s3, (app pre0 ((ToTerm buf1) :: [])))))
+          out_detect detect trig_prompts zmodem_detect zm_init o s1 pre buf)
 
 (** val drag_verdict :
     (n list -> dres) -> bool -> ('a1, 'a2) state -> n list -> ('a1, 'a2)
